@@ -293,6 +293,7 @@ func (n *node[T]) add(value T, compare func(a, b T) int) *node[T] {
 			n.right = n.right.add(value, compare)
 		}
 	}
+	n.height = n.calcHeight()
 	return n.rebalance()
 }
 
@@ -325,14 +326,14 @@ func (n *node[T]) balance() balanceFactor {
 
 func (n *node[T]) leftHeight() int {
 	if n.left == nil {
-		return 0
+		return -1
 	}
 	return n.left.height
 }
 
 func (n *node[T]) rightHeight() int {
 	if n.right == nil {
-		return 0
+		return -1
 	}
 	return n.right.height
 }
